@@ -110,6 +110,8 @@ class Obligation:
     discharged_by: str | None = None
     caught: tuple = ()
     escaping: tuple = ()
+    cfg: Any = None
+    frames: tuple = ()
 
 
 class MayRaise:
@@ -144,6 +146,19 @@ class MayRaise:
             return frozenset({{bool: B, int: I, float: F, str: S, bytes: Y}.get(type(v), O)})
         if k == "enum":
             return frozenset({K})
+        if k == "global" and str(t[1]) in ("math.inf", "math.nan", "math.pi", "math.e", "math.tau"):
+            return frozenset({F})
+        if k == "global" and ":" in str(t[1]):
+            mod, name = t[1].split(":", 1)
+            m = self.prog.modules.get(mod)
+            val = m.assigns.get(name) if m is not None else None
+            if isinstance(val, ast.Dict):
+                return frozenset({D})
+            if isinstance(val, (ast.Set,)):
+                return frozenset({E})
+            if isinstance(val, (ast.Tuple,)):
+                return frozenset({T})
+            return ANY
         if k == "param":
             if t[1] in self.domain:
                 return self.domain[t[1]]
@@ -576,7 +591,7 @@ class MayRaise:
             name = res[1] if isinstance(res, tuple) and res[0] == "pure" else (e.lib() or "")
             args = list(e.args)
             recv = e.recv
-            if name in ("int", "float", "math.isfinite", "max", "min", "len", ".search", ".match", "getattr", ".get", ".items") or name in STR_METHODS:
+            if name in ("int", "float", "math.isfinite", "max", "min", "len", ".search", ".match", "getattr", ".get", ".items", "math.ceil", "math.floor", "round") or name in STR_METHODS:
                 self.note(res, "call")
             if name == "int" and args:
                 a = ty(args[0])
@@ -606,6 +621,12 @@ class MayRaise:
                     out.append(Obligation(node, show(res), ("TypeError",), f"math.isfinite of {sorted(map(str, a - NUM))}"))
                 elif I in a and not self.int_bounded(args[0], pos):
                     out.append(Obligation(node, show(res), ("OverflowError",), "math.isfinite of an int beyond float range"))
+            elif name in ("math.ceil", "math.floor", "round", "math.trunc") and args:
+                a = ty(args[0])
+                if F in a:
+                    out.append(Obligation(node, show(res), ("OverflowError", "ValueError"), f"{name}() of a float that may be inf / nan"))
+                if not a <= NUM:
+                    out.append(Obligation(node, show(res), ("TypeError",), f"{name}() of {sorted(map(str, a - NUM))[:3]}"))
             elif name in ("max", "min") and len(args) >= 2:
                 tys = [ty(a) for a in args]
                 if not (all(t <= NUM for t in tys) or all(t <= {S} for t in tys)):
@@ -679,12 +700,17 @@ class MayRaise:
         for t in self.nonneg:
             pos.append((("cmp", "<", t, ("const", 0)), False))
         for it in p.items:
+            n_before = len(out)
             if it[0] == "cond":
                 atom, pol, node = it[1], it[2], it[3]
                 self.check_term(atom, node, facts, events, pos, out, seen)
                 self.learn(atom, pol, facts, events, pos)
+                for ob in out[n_before:]:
+                    ob.cfg = it[4] if len(it) > 4 else self.cfg
+                    ob.frames = it[5] if len(it) > 5 else ()
                 continue
             e = it[1]
+            self._cur = e
             if e.kind == "call":
                 events[e.result] = e
                 for a in list(e.args) + list(e.kwargs.values()) + ([e.recv] if e.recv is not None else []):
@@ -712,14 +738,19 @@ class MayRaise:
                         facts[("fresh", e.node.id, tgt.id)] = frozenset(tys)
             elif e.kind == "raise":
                 pass
-        # discharge through enclosing handlers
+            for ob in out[n_before:]:
+                ob.cfg = e.cfg or self.cfg
+                ob.frames = e.frames
+        # discharge through enclosing handlers (of the function the operation lives in, then of
+        # every inlined call site around it)
         for ob in out:
             escaping = []
+            chain = [((ob.cfg or self.cfg), ob.node)] + list(reversed(ob.frames))
             for kname in ob.kinds:
                 ks = [kname] if kname != "Exception" else ["OtherException", "TypeError", "ValueError", "AttributeError", "KeyError", "RuntimeError"]
                 for kk in ks:
-                    where, _ = self.cfg.dispatch(kk, ob.node.ctx)
-                    if where == "escape" and kname not in escaping:
+                    caught = any(c.dispatch(kk, n.ctx)[0] != "escape" for c, n in chain)
+                    if not caught and kname not in escaping:
                         escaping.append(kname)
             ob.caught = tuple(k for k in ob.kinds if k not in escaping)
             ob.escaping = tuple(escaping)
@@ -739,20 +770,21 @@ def analyse_function(prog: Program, cfgs, engine, fi: FuncInfo, domain: dict | N
     paths: list[SymPath] = []
     for _ in range(rounds):
         def raises(ev, c, raising=raising):
-            return raising.get(ev.node.id, ())
+            return raising.get((c.func.qual, ev.node.id), ())
 
         paths = engine.paths(fi, raises=raises if raising else None, key=f"mayraise{len(raising)}")
         new = dict(raising)
         result = {}
         for p in paths:
             for ob in mr.analyse(p):
-                result[(ob.node.id, ob.expr, ob.kinds)] = ob
+                result[((ob.cfg or cfg).func.qual, ob.node.id, ob.expr, ob.kinds)] = ob
                 if ob.caught and ob.node.kind in ("call", "await"):
                     ks: list[str] = []
                     for k in ob.caught:
                         ks += [k] if k != "Exception" else ["OtherException"]
-                    cur = tuple(dict.fromkeys(list(new.get(ob.node.id, ())) + ks))
-                    new[ob.node.id] = cur
+                    rk = ((ob.cfg or cfg).func.qual, ob.node.id)
+                    cur = tuple(dict.fromkeys(list(new.get(rk, ())) + ks))
+                    new[rk] = cur
         if new == raising:
             break
         raising = new
